@@ -406,6 +406,34 @@ func (w *c06) step(t []string) string {
 			s.Do(func(v interface{}) { out = append(out, v.(int)) })
 			return fmtInts(out)
 		})
+	case "rdomut":
+		// rdomut <r> <s>: Do on r with a callback that, on its SECOND call (visiting r.Next()), links s behind the element being visited (unless s IS
+		// that element): container/ring reads p.next after the callback returned, so the traversal continues through what was just linked in
+		f, s := w.fRing(t[1]), w.sRing(t[1])
+		f2, s2 := w.fRing(t[2]), w.sRing(t[2])
+		return two(func() string {
+			out := []int{}
+			calls := 0
+			f.Do(func(v int) {
+				out = append(out, v)
+				calls++
+				if calls == 2 && f2 != nil && f2.Value != v {
+					f.Next().Link(f2)
+				}
+			})
+			return fmtInts(out)
+		}, func() string {
+			out := []int{}
+			calls := 0
+			s.Do(func(v interface{}) {
+				out = append(out, v.(int))
+				calls++
+				if calls == 2 && s2 != nil && s2.Value != v {
+					s.Next().Link(s2)
+				}
+			})
+			return fmtInts(out)
+		})
 	case "rfwd", "rbwd":
 		f, s := w.fRing(t[1]), w.sRing(t[1])
 		return two(func() string {
